@@ -32,7 +32,8 @@ CONSTANTS
     CheckText,   \* evaluate ParseFile(Render(fc)) = inst
     ReportCap,   \* how many final matchings get an expected report in the export
     Detail,      \* export F0 and per-solve sets
-    ExportMode   \* "run": export finished runs; "checker": export stability verdicts of all upper-quota-respecting assignments
+    ExportMode   \* "run": export finished runs; "checker": export stability verdicts of all upper-quota-respecting
+                 \* assignments; "load": export the instance as denoted by the file, nothing is solved
 
 VARIABLES b, style, block
 vars == <<svars, b, style, block>>
@@ -58,7 +59,7 @@ StudentLists ==
 Canonical(q, t) == \A i \in 1 .. Len(q) - 1 : t[i] = 1 => q[i] < q[i + 1]
 OrdersOf(T) ==      \* tie-structured orders of the set T (second-side lists)
     LET n == Cardinality(T)
-        asc == SetToSortSeq(T, <)
+        asc == SortedSeqOf(T)
     IN  CASE OrderMode = "asc"     -> {[p |-> asc, r |-> [i \in 1 .. n |-> i]]}
           [] OrderMode = "asctied" -> {[p |-> asc, r |-> [i \in 1 .. n |-> 1]]}
           [] OrderMode = "all" ->
@@ -169,10 +170,10 @@ Built == b.stage = "done"
 Next ==
     \/ AddStudent \/ AddProject \/ AddLecturer \/ ChooseSided \/ AddList \/ AddCrit \/ EndCrits \/ ChooseOpts
     \/ (Built /\ Construct /\ UNCHANGED <<b, style, block>>)
-    \/ (Built /\ nruns = 0 /\ BeginSolve /\ UNCHANGED <<b, style, block>>)
+    \/ (Built /\ ExportMode = "run" /\ nruns = 0 /\ BeginSolve /\ UNCHANGED <<b, style, block>>)
     \/ (SolveStep /\ UNCHANGED <<b, style, block>>)
     \/ (EndSolve /\ UNCHANGED <<b, style, block>>)
-    \/ (Built /\ nruns = 0 /\ BFRun /\ UNCHANGED <<b, style, block>>)
+    \/ (Built /\ ExportMode = "run" /\ nruns = 0 /\ BFRun /\ UNCHANGED <<b, style, block>>)
 Spec == Init /\ [][Next]_vars
 
 -----------------------------------------------------------------------------
@@ -218,6 +219,7 @@ Export ==
     /\ (ExportMode = "run" /\ RunOver) => PrintT("EXPORT " \o ToJson(HistLP))
     /\ (ExportMode = "run" /\ phase = "solved" /\ opts.bf) => PrintT("EXPORT " \o ToJson(HistBF))
     /\ (ExportMode = "checker" /\ phase = "ready") => PrintT("EXPORT " \o ToJson(HistChecker))
+    /\ (ExportMode = "load" /\ phase = "ready") => PrintT("EXPORT " \o ToJson([kind |-> "load", o |-> Common, inst |-> inst]))
 (* in checker mode nothing needs to run after construction *)
-StopAfterReady == ExportMode = "checker" => phase \in {"init", "ready", "refused"}
+StopAfterReady == ExportMode \in {"checker", "load"} => phase \in {"init", "ready", "refused"}
 =============================================================================
